@@ -28,8 +28,8 @@ pub fn prop() -> Prop {
         id: "C05",
         level: "fault_enumeration",
         runs: |t| match t {
-            Tier::Quick => 2100,
-            Tier::Thorough => 26000,
+            Tier::Quick => 1500,
+            Tier::Thorough => 20000,
         },
         generate,
         exec,
@@ -60,7 +60,11 @@ fn gen_c<C: Suite>(seed: u64, run: u64, _tier: Tier) -> Scenario {
     let mut s = base_scenario("C05", C::NAME, seed, run);
     let slow = C::COST >= 9;
     let max_n = if slow { 4 } else { 7 };
-    let (n, t) = gen_nt(&mut p, 2, max_n);
+    let (mut n, mut t) = gen_nt(&mut p, 2, max_n);
+    if let Some((wn, wt)) = maybe_wide::<C>(&mut p, 14) {
+        n = wn;
+        t = wt;
+    }
     s.n = n;
     s.t = t;
     s.id_scheme = (*p.pick(&ID_SCHEMES)).to_string();
